@@ -129,77 +129,117 @@ def narrow_casts(ctx, rep):
     rep.notes.append("R15.2: %d functions on the write paths, %d narrowing casts" % (len(inv.reach), n))
 
 
-SPEC_DECODE = [
-    # (lo, hi, variant, formula description)
-    (0, 0, "Practice", None),
-    (1, 99, "Laps", ("path", "value")),
-    (100, 190, "Laps", ("bin", "+", ("bin", "*", ("bin", "-", ("path", "value"), ("lit", 100)), ("lit", 10)), ("lit", 100))),
-    (191, 238, "Hours", ("bin", "-", ("path", "value"), ("lit", 190))),
-]
+def spec_decode(v):
+    """InSim.txt, RaceLaps: 0 practice; 1-99 laps; 100-190 -> 100..1000 laps in steps of 10; 191-238 -> 1..48 hours"""
+    if 1 <= v <= 99:
+        return ("Laps", v)
+    if 100 <= v <= 190:
+        return ("Laps", (v - 100) * 10 + 100)
+    if 191 <= v <= 238:
+        return ("Hours", v - 190)
+    return ("Practice", None)
+
+
+def spec_encode(kind, n):
+    """inverse table; anything that has no wire value is sent as practice (0), as the encoder documents"""
+    if kind == "Laps" and 1 <= n <= 99:
+        return n
+    if kind == "Laps" and 100 <= n <= 1000:
+        return (n - 100) // 10 + 100
+    if kind == "Hours" and 1 <= n <= 48:
+        return n + 190
+    return 0
+
+
+BANDS = [(0, 0), (1, 99), (100, 190), (191, 238)]
+DEC = "<insim::insim::racelaps::RaceLaps as core::convert::From<u8>>::from"
+ENC = "insim::insim::racelaps::<impl core::convert::From<insim::insim::racelaps::RaceLaps> for u8>::from"
 
 
 def racelaps_table(ctx, rep):
-    ms = [m for m in ctx.ast.method("RaceLaps", "from", crate="insim") if "From<u8>" in (m[0][3].get("trait") or "")]
-    if len(ms) != 1:
+    """R15.3: both conversions extracted from MIR as decision tables and evaluated exhaustively: every one of the 256 wire
+    bytes for the decoder; Practice, Laps(n) and Hours(n) for n = 0..=1100 and some huge values for the encoder - compared
+    with the specification's table value by value, whatever way the source spells its ranges and formulas."""
+    import tabeval
+    b = ctx.mir.body(DEC)
+    if b is None:
         rep.fail("R15.3", "decode:found", "impl From<u8> for RaceLaps not found")
         return
-    e, it = ms[0]
-    rep.fn("<insim::insim::racelaps::RaceLaps as core::convert::From<u8>>::from")
-    mt = tables.first_match(it["body"], "value")
-    rows = tables.rows(mt["arms"]) if mt else []
-    got = []
-    fallback = None
-    for (p, b, g, ln) in rows:
-        if p[0] == "lit":
-            got.append((p[1], p[1], b, ln))
-        elif p[0] == "range" and p[3]:
-            got.append((p[1], p[2], b, ln))
-        elif p[0] == "wild":
-            fallback = (b, ln)
-    for (lo, hi, var, formula) in SPEC_DECODE:
-        r = [x for x in got if x[0] == lo and x[1] == hi]
-        ok = len(r) == 1
-        detail = "no row for %d..=%d" % (lo, hi)
-        if ok:
-            b = r[0][2]
-            if formula is None:
-                ok = b == ("path", "RaceLaps::%s" % var)
-            else:
-                ok = b[0] == "call" and b[1] == "RaceLaps::%s" % var and len(b[2]) == 1 and b[2][0] == formula
-            detail = "row %d..=%d must be RaceLaps::%s(%s); found %s" % (lo, hi, var, formula, b)
-        rep.check("R15.3", "decode:%d..%d" % (lo, hi), ok, detail, ctx.loc(e, r[0][3] if r else it["ln"]), sample={"range": [lo, hi], "variant": var})
-    rep.check("R15.3", "decode:other", fallback is not None and fallback[0] == ("path", "RaceLaps::Practice") and len(got) == len(SPEC_DECODE),
-              "every other byte must decode as Practice and no extra rows may exist (rows %d)" % len(got), ctx.loc(e, it["ln"]))
+    rep.fn(DEC)
+    rows = b.decision_rows()
+    cur = {}
+
+    def leaf(o):
+        if o == ("arg", 1):
+            return cur["v"]
+        return None
+    ev = tabeval.Evaluator(leaf, lambda d, rd, args, e: tabeval.std_call(d, args, e))
+    wrong = {}
+    undecided = None
+    for v in range(256):
+        cur["v"] = v
+        try:
+            m = ev.matching_rows(rows)
+            res = set()
+            for r in m:
+                kind = r[1][1]
+                val = ev.ev(r[1][3][0]) if len(r[1]) > 3 and r[1][3] else None
+                res.add((kind, val))
+        except (tabeval.Unknown, tabeval.Panic) as e:
+            undecided = "byte %d: %s" % (v, e)
+            break
+        want = spec_decode(v)
+        if res != {want}:
+            band = next(("%d..%d" % (lo, hi) for lo, hi in BANDS if lo <= v <= hi), "other")
+            wrong.setdefault(band, "byte %d decodes as %s, the specification says %s" % (v, sorted(res, key=str) or "a panic", want))
+    if undecided:
+        rep.fail("R15.3", "decode:table", "the decoder's decision table could not be evaluated (%s)" % undecided, b.loc())
+    else:
+        for lo, hi in BANDS:
+            k = "%d..%d" % (lo, hi)
+            rep.check("R15.3", "decode:%s" % k, k not in wrong, wrong.get(k, ""), b.loc(), sample={"range": [lo, hi], "evaluated": hi - lo + 1})
+        rep.check("R15.3", "decode:other", "other" not in wrong, wrong.get("other", ""), b.loc(), sample={"evaluated": 256 - 239})
     # encoder
-    ms = [m for m in ctx.ast.method("u8", "from", crate="insim") if "From<RaceLaps>" in (m[0][3].get("trait") or "")]
-    if len(ms) != 1:
+    b = ctx.mir.body(ENC)
+    en = ctx.mir.enums.get("insim::insim::racelaps::RaceLaps")
+    if b is None or en is None:
         rep.fail("R15.3", "encode:found", "impl From<RaceLaps> for u8 not found")
         return
-    e, it = ms[0]
-    rep.fn("<u8 as core::convert::From<insim::insim::racelaps::RaceLaps>>::from")
-    mt = tables.first_match(it["body"], "item")
-    arms = {}
-    for a in (mt["arms"] if mt else []):
-        p = tables.pdesc(a["pat"])
-        arms[p[1] if p[0] == "var" else str(p)] = a
-    okp = "Practice" in arms and tables.edesc(arms["Practice"]["body"]) == ("lit", 0)
-    rep.check("R15.3", "encode:practice", okp, "Practice must encode as 0", ctx.loc(e, it["ln"]))
+    rep.fn(ENC)
+    rows = b.decision_rows()
+    idx = {v["name"]: v["idx"] for v in en["variants"]}
 
-    def inner_rows(arm):
-        m2 = tables.first_match(arm["body"])
-        return tables.rows(m2["arms"]) if m2 else None
-    laps = inner_rows(arms["Laps"]) if "Laps" in arms else None
-    okl = False
-    if laps:
-        d = {(p[1], p[2]) if p[0] == "range" else p[0]: b for (p, b, g, ln) in laps}
-        okl = d.get((1, 99)) == ("path", "data") and d.get((100, 1000)) == ("bin", "+", ("bin", "/", ("bin", "-", ("path", "data"), ("lit", 100)), ("lit", 10)), ("lit", 100)) and d.get("wild") == ("lit", 0)
-    rep.check("R15.3", "encode:laps", okl, "Laps must encode 1..=99 as itself, 100..=1000 as (n-100)/10+100 and anything else as 0 (practice); found %s" % (laps,), ctx.loc(e, it["ln"]),
-              sample={"rows": [[list(map(str, p)), str(b)] for (p, b, g, ln) in (laps or [])]})
-    hours = inner_rows(arms["Hours"]) if "Hours" in arms else None
-    okh = False
-    if hours:
-        d = {(p[1], p[2]) if p[0] == "range" else p[0]: b for (p, b, g, ln) in hours}
-        okh = d.get((1, 48)) == ("bin", "+", ("path", "data"), ("lit", 190)) and d.get("wild") == ("lit", 0)
-    rep.check("R15.3", "encode:hours", okh,
-              "Hours must encode 1..=48 as h+190 and anything else as 0 (practice); found %s" % ((hours,) if hours else tables.edesc(arms["Hours"]["body"]) if "Hours" in arms else None,), ctx.loc(e, it["ln"]))
+    def leaf2(o):
+        if o[0] == "discr" and o[1] == ("arg", 1):
+            return idx[cur["k"]]
+        if o[0] == "field" and o[1][0] == "downcast" and o[1][1] == ("arg", 1) and o[2] == 0:
+            if o[1][3] != cur["k"]:
+                raise tabeval.Panic("payload of another variant")
+            return cur["n"]
+        return None
+    ev = tabeval.Evaluator(leaf2, lambda d, rd, args, e: tabeval.std_call(d, args, e))
+    wrong = {}
+    undecided = None
+    big = [5000, 65535, 65536, 2 ** 32 - 1, 2 ** 32, 2 ** 32 + 200, 2 ** 63, 2 ** 64 - 190, 2 ** 64 - 1]
+    dom = [("Practice", None)] + [("Laps", n) for n in list(range(0, 1101)) + big] + [("Hours", n) for n in list(range(0, 1101)) + big]
+    for k, n in dom:
+        cur["k"], cur["n"] = k, n
+        try:
+            m = ev.matching_rows(rows)
+            res = {ev.ev(r[1][3][0]) for r in m}
+        except tabeval.Unknown as e:
+            undecided = "%s(%s): %s" % (k, n, e)
+            break
+        except tabeval.Panic:
+            res = {"panic"}
+        want = spec_encode(k, n)
+        if res != {want}:
+            wrong.setdefault(k.lower(), "%s%s is encoded as %s, the specification says %d%s" % (
+                k, "" if n is None else "(%d)" % n, sorted(res, key=str) or "a panic", want, " (practice: it has no wire value)" if want == 0 and k != "Practice" else ""))
+    if undecided:
+        rep.fail("R15.3", "encode:table", "the encoder's decision table could not be evaluated (%s)" % undecided, b.loc())
+    else:
+        rep.check("R15.3", "encode:practice", "practice" not in wrong, wrong.get("practice", ""), b.loc())
+        rep.check("R15.3", "encode:laps", "laps" not in wrong, wrong.get("laps", ""), b.loc(), sample={"evaluated": 1101 + len(big)})
+        rep.check("R15.3", "encode:hours", "hours" not in wrong, wrong.get("hours", ""), b.loc(), sample={"evaluated": 1101 + len(big)})
     rep.floor("R15.3", 7)
